@@ -112,7 +112,7 @@ for pid in ids:
     checks.append({
         "property_id": pid,
         "quick_cmd": f"bin/govc check -property {pid} -tier quick",
-        "thorough_cmd": f"bin/govc check -property {pid} -tier thorough",
+        "thorough_cmd": f"tools/thorough.sh {pid}",
         "evidence_file": f"/verif/evidence/{pid}.json",
         "replay_cmd_template": "cat {path}",
         "engine": "govc",
